@@ -552,7 +552,7 @@ def aux_stream(ctx, only=None):
         lines = only
     else:
         lines = [l for l in vlib.corpus_lines("C19") if l.startswith("inspx\t")]
-        n = ctx.n(400, 12000)
+        n = ctx.n(200, 4000)
         lines += [gen_fix(rng) for _ in range(n)] + [gen_litx(rng) for _ in range(n)] + [gen_coll(rng) for _ in range(n)]
     ans = vlib.run_impl(lines)
     bad = 0
@@ -597,7 +597,7 @@ def run(ctx):
                 ctx.violation("property-fails", {"line": lines[0]}, pf)
             return
     else:
-        n = ctx.n(6000, 250000)
+        n = ctx.n(6000, 400000)
         lines = [l for l in vlib.corpus_lines("C19") if not is_float_line(l) and not l.startswith("inspx\t")] + \
             gen_lines(ctx.rng, n) + sweep_lines(ctx)
     for ln in lines:
@@ -610,7 +610,7 @@ def run(ctx):
         # floats: implementation only (no Lean model of strconv); judged by the oracle
         fl = [l for l in vlib.corpus_lines("C19") if is_float_line(l) and not l.startswith("inspx\t")]
         by = {"f": [], "f64": [], "f32": []}
-        for _ in range(ctx.n(3000, 120000)):
+        for _ in range(ctx.n(3000, 200000)):
             k, b = gen_float(ctx.rng)
             by[k].append(b)
         for k, bs in by.items():
